@@ -212,4 +212,112 @@ theorem avroSlowGo_spec : ∀ (bs : List Nat) (count value : Nat), count ≤ 10 
           have e1 : c + 1 + n' = c + (n' + 1) := by omega
           rw [e1, Nat.add_assoc]
 
+set_option maxRecDepth 8000 in
+set_option maxHeartbeats 1600000 in
+theorem avroFast_spec (b0 b1 b2 b3 b4 b5 b6 b7 b8 b9 : Nat)
+    (h0 : b0 < 256) (h1 : b1 < 256) (h2 : b2 < 256) (h3 : b3 < 256) (h4 : b4 < 256)
+    (h5 : b5 < 256) (h6 : b6 < 256) (h7 : b7 < 256) (h8 : b8 < 256) (h9 : b9 < 256) :
+    avroReadVarintArray [b0, b1, b2, b3, b4, b5, b6, b7, b8, b9] = uleb64 [b0, b1, b2, b3, b4, b5, b6, b7, b8, b9] := by
+  simp only [avroReadVarintArray, avroFastGo, AVRO_FAST_LOOP, AVRO_FAST_LEN, AVRO_FAST_LAST_LIMIT, AVRO_FAST_SUB,
+    uleb64, uleb, shl64, two64, Nat.shiftLeft_eq]
+  by_cases c0 : b0 < 128
+  · simp [c0]; omega
+  by_cases c1 : b1 < 128
+  · simp [c0, c1]; omega
+  by_cases c2 : b2 < 128
+  · simp [c0, c1, c2]; omega
+  by_cases c3 : b3 < 128
+  · simp [c0, c1, c2, c3]; omega
+  by_cases c4 : b4 < 128
+  · simp [c0, c1, c2, c3, c4]; omega
+  by_cases c5 : b5 < 128
+  · simp [c0, c1, c2, c3, c4, c5]; omega
+  by_cases c6 : b6 < 128
+  · simp [c0, c1, c2, c3, c4, c5, c6]; omega
+  by_cases c7 : b7 < 128
+  · simp [c0, c1, c2, c3, c4, c5, c6, c7]; omega
+  by_cases c8 : b8 < 128
+  · simp [c0, c1, c2, c3, c4, c5, c6, c7, c8]; omega
+  by_cases c9 : b9 < 128
+  · simp [c0, c1, c2, c3, c4, c5, c6, c7, c8, c9]
+    by_cases d9 : b9 < 2
+    · simp [d9]; omega
+    · simp [d9]; omega
+  · simp [c0, c1, c2, c3, c4, c5, c6, c7, c8, c9]
+    omega
+
+theorem uleb_take : ∀ (bs : List Nat) (k : Nat), uleb (bs.take k) =
+    match uleb bs with
+    | some (v, n) => if n ≤ k then some (v, n) else none
+    | none => none := by
+  intro bs
+  induction bs with
+  | nil => intro k; simp [uleb]
+  | cons b bs ih =>
+    intro k
+    cases k with
+    | zero =>
+      simp only [List.take, uleb]
+      cases hu : uleb (b :: bs) with
+      | none => simp [uleb] at hu ⊢; simp [hu]
+      | some r =>
+        have := (uleb_bound _ _ _ hu).2.1
+        simp only [uleb] at hu
+        simp [hu]; omega
+    | succ k =>
+      simp only [List.take, uleb]
+      by_cases hb : b < 128
+      · simp [hb]
+      · simp only [hb, if_false, ih k]
+        cases hu : uleb bs with
+        | none => rfl
+        | some r =>
+          obtain ⟨v, n⟩ := r
+          simp only []
+          by_cases hn : n ≤ k <;> simp [hn]
+
+theorem uleb64_take (bs : List Nat) : uleb64 (bs.take 10) = uleb64 bs := by
+  unfold uleb64
+  rw [uleb_take]
+  cases hu : uleb bs with
+  | none => rfl
+  | some r =>
+    obtain ⟨v, n⟩ := r
+    simp only []
+    by_cases hn : n ≤ 10 <;> simp [hn]
+
+theorem take10 (bs : List Nat) (h : 10 ≤ bs.length) :
+    ∃ b0 b1 b2 b3 b4 b5 b6 b7 b8 b9, bs.take 10 = [b0, b1, b2, b3, b4, b5, b6, b7, b8, b9] := by
+  match bs, h with
+  | b0 :: b1 :: b2 :: b3 :: b4 :: b5 :: b6 :: b7 :: b8 :: b9 :: rest, _ =>
+    exact ⟨b0, b1, b2, b3, b4, b5, b6, b7, b8, b9, by simp⟩
+  | [], h | [_], h | [_, _], h | [_, _, _], h | [_, _, _, _], h | [_, _, _, _, _], h
+  | [_, _, _, _, _, _], h | [_, _, _, _, _, _, _], h | [_, _, _, _, _, _, _, _], h
+  | [_, _, _, _, _, _, _, _, _], h => simp at h
+
+/-- `read_varint` (all three paths) is exactly ULEB128 restricted to u64 -/
+theorem avroReadVarint_spec (bs : List Nat) (hb : ∀ b ∈ bs, b < 256) : avroReadVarint bs = uleb64 bs := by
+  cases bs with
+  | nil => simp [avroReadVarint, uleb64, uleb]
+  | cons first rest =>
+    simp only [avroReadVarint, AVRO_FAST_LEN]
+    by_cases hf : first < 128
+    · simp [hf, uleb64, uleb]; omega
+    · simp only [hf, if_false]
+      by_cases hl : 10 ≤ (first :: rest).length
+      · simp only [hl, if_true]
+        obtain ⟨b0, b1, b2, b3, b4, b5, b6, b7, b8, b9, ht⟩ := take10 _ hl
+        rw [← uleb64_take, ht]
+        have hm : ∀ b ∈ [b0, b1, b2, b3, b4, b5, b6, b7, b8, b9], b < 256 := by
+          intro b hbm; rw [← ht] at hbm; exact hb b (List.mem_of_mem_take hbm)
+        simp only [List.mem_cons, List.not_mem_nil, or_false, forall_eq_or_imp, forall_eq] at hm
+        obtain ⟨m0, m1, m2, m3, m4, m5, m6, m7, m8, m9⟩ := hm
+        exact avroFast_spec _ _ _ _ _ _ _ _ _ _ m0 m1 m2 m3 m4 m5 m6 m7 m8 m9
+      · simp only [hl, if_false, avroReadVarintSlow]
+        rw [avroSlowGo_spec _ 0 0 (by omega) (by simp)]
+        unfold uleb64
+        cases hu : uleb (first :: rest) with
+        | none => rfl
+        | some r => obtain ⟨v, n⟩ := r; simp
+
 end ArrowModel.C08
